@@ -423,7 +423,7 @@ def one_case(ctx, case):
 
 
 def run_shard(ctx):
-    for i in range(ncases(ctx.tier)):
+    for i in ctx.cases(ncases(ctx.tier)):
         case = gen_case(ctx.rng(i), i)
         viol, nt = one_case(ctx, case)
         for m, what, wit in viol:
